@@ -1,10 +1,11 @@
 #!/bin/sh
-# Regenerates every evidence file from /verif against /repo: thorough tier for every claimed property (16 workers),
-# output to .build/final_pass.log. Usage: tools/final_pass.sh [tier]
+# Regenerates evidence files from /verif against /repo: the given tier for every claimed property (16 workers), or for
+# the ids in $VERIF_IDS; output appended to .build/final_pass.log. Usage: [VERIF_IDS="C05 C12"] tools/final_pass.sh [tier]
 cd /verif
 tier=${1:-thorough}
-: > .build/final_pass.log
-for p in $(grep -v '^#' tools/claimed.txt); do
+ids=${VERIF_IDS:-$(grep -v '^#' tools/claimed.txt)}
+echo "## $(date -u +%H:%M:%S) tier=$tier repo=$(git -C /repo rev-parse --short HEAD) ids=$(echo $ids)" >> .build/final_pass.log
+for p in $ids; do
   ./check $p $tier > .build/final_$p.out 2>&1
   rc=$?
   grep -E "^(C[0-9]+ $tier|VIOLATION|TROUBLE|KNOWN-FINDING|OBSERVATION|NOTE)" .build/final_$p.out | cut -c1-300 >> .build/final_pass.log
